@@ -1,6 +1,6 @@
 //! C09 — error correction never reports success on a word that is not a codeword.
 use crate::ctx::{guard, Case, Ctx};
-use crate::gen::rswords::{add_vanishing, apply, pattern, valid_codeword};
+use crate::gen::rswords::{add_vanishing, add_with_roots, apply, pattern, random_root_set, valid_codeword};
 use crate::json::{hex, J};
 use crate::refimpl::cat::{self, Row, CAT};
 use crate::refimpl::gf::{first_bad_block, Rs};
@@ -54,7 +54,15 @@ pub fn eval(ctx: &mut Ctx, r: &Row, rs: &Rs, word: &[u8], tag: &str) {
 
 pub fn gen_word(ctx: &mut Ctx, r: &Row, rs: &Rs, kind: usize) -> (Vec<u8>, &'static str) {
     let (t, k) = (r.k() / 2, r.k());
-    match kind % 6 {
+    match kind % 7 {
+        6 => {
+            let mut cw = valid_codeword(&mut ctx.rng, r, rs, 3);
+            let b = ctx.rng.below(r.blocks);
+            let roots = random_root_set(&mut ctx.rng, k);
+            let qd = ctx.rng.below(3);
+            add_with_roots(&mut ctx.rng, r, &mut cw, b, &roots, qd);
+            (cw, "subset_of_syndromes_vanishes")
+        }
         0 => (ctx.rng.bytes(r.total()), "noise"),
         1 => {
             // weight t+1..k in one block, others clean
